@@ -16,6 +16,7 @@ type vnS struct {
 	params []int  // parameter sites (func, fexpr, arrow)
 	defs   []int  // default-value use sites, parallel to params (-1 = no default)
 	body   []vnS
+	rest   bool // the last parameter is a rest parameter (...p)
 }
 
 func vnRenderJS(out []byte, list []vnS, names []byte) []byte {
@@ -26,6 +27,9 @@ func vnRenderJS(out []byte, list []vnS, names []byte) []byte {
 			for j, ps := range s.params {
 				if j > 0 {
 					p = append(p, ',')
+				}
+				if s.rest && j == len(s.params)-1 {
+					p = append(p, "..."...)
 				}
 				p = append(p, names[ps])
 				if j < len(s.defs) && s.defs[j] >= 0 {
@@ -44,6 +48,24 @@ func vnRenderJS(out []byte, list []vnS, names []byte) []byte {
 			out = append(append(append(out, "const "...), id(s.site)...), "=0;"...)
 		case "use":
 			out = append(append(out, id(s.site)...), ';')
+		case "suse": // the name used as a shorthand property: ({a});
+			out = append(append(append(out, "({"...), id(s.site)...), "});"...)
+		case "cexpr": // class expression with a name, the body refers to a name: (class N{m(){U}});
+			out = append(append(append(out, "(class "...), id(s.site)...), "{m(){"...)
+			out = vnRenderJS(out, s.body, names)
+			out = append(out, "}});"...)
+		case "pmeth": // an object literal with a method inside parentheses (a possible arrow head): z=({m(){body}});
+			out = append(out, "z=({m(){"...)
+			out = vnRenderJS(out, s.body, names)
+			out = append(out, "}});"...)
+		case "ause": // the name as the first element of an array literal: [a];
+			out = append(append(append(out, '['), id(s.site)...), ']', ';')
+		case "ouse": // the name as the value of an object literal property: ({k:a});
+			out = append(append(append(out, "({k:"...), id(s.site)...), "});"...)
+		case "sblock": // class declaration with a static block
+			out = append(append(append(out, "class "...), id(s.site)...), "{static{"...)
+			out = vnRenderJS(out, s.body, names)
+			out = append(out, "}}"...)
 		case "puse": // a parenthesised expression that looks like an arrow head
 			out = append(append(append(out, '('), id(s.site)...), ')', ';')
 		case "arrow1": // x => {body}
@@ -176,7 +198,7 @@ func (r *vnResolver) hoist(sc *vnScope, list []vnS) {
 			r.declare(sc, s.site, 1)
 		case "func":
 			r.declare(sc, s.site, 1)
-		case "let", "const", "class":
+		case "let", "const", "class", "sblock":
 			r.declare(sc, s.site, 2)
 		case "block":
 			// var-like declarations inside nested blocks are hoisted when that block is entered
@@ -244,8 +266,16 @@ func (r *vnResolver) scope(sc *vnScope, list []vnS) {
 	}
 	for i, s := range list {
 		switch s.k {
-		case "use", "puse":
+		case "use", "puse", "suse", "ause", "ouse":
 			r.use(sc, s.site)
+		case "pmeth":
+			r.function(sc, vnS{k: "func", site: -1, body: s.body})
+		case "cexpr":
+			ns := &vnScope{parent: sc}
+			r.declare(ns, s.site, 5)
+			r.function(ns, vnS{k: "func", site: -1, body: s.body})
+		case "sblock": // a static block is its own var scope (like a function body)
+			r.function(sc, vnS{k: "func", site: -1, body: s.body})
 		case "block", "catch", "forlet":
 			if s.k == "forlet" {
 				for _, d := range s.defs {
@@ -292,8 +322,16 @@ func (r *vnResolver) scopeBody(sc *vnScope, list []vnS) {
 	}
 	for i, s := range list {
 		switch s.k {
-		case "use", "puse":
+		case "use", "puse", "suse", "ause", "ouse":
 			r.use(sc, s.site)
+		case "pmeth":
+			r.function(sc, vnS{k: "func", site: -1, body: s.body})
+		case "cexpr":
+			ns := &vnScope{parent: sc}
+			r.declare(ns, s.site, 5)
+			r.function(ns, vnS{k: "func", site: -1, body: s.body})
+		case "sblock":
+			r.function(sc, vnS{k: "func", site: -1, body: s.body})
 		case "block", "catch", "forlet":
 			if s.k == "forlet" {
 				for _, d := range s.defs {
@@ -349,6 +387,12 @@ var vnSkeletons = []struct {
 	{6, []vnS{vnD("var", 0), {k: "forlet", site: 1, defs: []int{2, 3}, body: []vnS{vnD("let", 4), vnU(5)}}}},                  // 23: loop condition/update vs a let in the body
 	{5, []vnS{vnD("let", 0), vnBlk(vnU(1), vnBlk(vnU(2), vnBlk(vnU(3)))), vnU(4)}},                                            // 24: three scopes below
 	{5, []vnS{{k: "forlet", site: 0, defs: []int{1, 2}, body: []vnS{vnU(3)}}, vnU(4)}},                                       // 25: loop head name used in condition, update and body
+	{7, []vnS{vnD("var", 0), {k: "func", site: 1, params: []int{2, 4}, defs: []int{3}, rest: true, body: []vnS{vnD("var", 5), vnU(6)}}}}, // 26: default value + rest parameter + body var (sites in source order)
+	{4, []vnS{vnD("var", 0), vnFn(1, nil, vnS{k: "suse", site: 2}), {k: "suse", site: 3}}},                                          // 27: shorthand properties
+	{4, []vnS{vnD("let", 0), {k: "cexpr", site: 1, body: []vnS{vnU(2)}}, vnU(3)}},                                                   // 28: class expression name
+	{5, []vnS{vnD("let", 0), {k: "sblock", site: 1, body: []vnS{vnD("var", 2), vnU(3)}}, vnU(4)}},                                   // 29: var in a class static block
+	{5, []vnS{vnD("var", 0), {k: "pmeth", site: -1, body: []vnS{{k: "ause", site: 1}, {k: "ouse", site: 2}, vnBlk(vnS{k: "ause", site: 3})}}, vnU(4)}}, // 30: literals inside a method inside a parenthesised object literal
+	{5, []vnS{vnD("var", 0), vnBlk(vnU(1)), {k: "arrow1", site: -1, params: []int{2}, body: []vnS{vnU(3)}}, vnU(4)}},              // 31: x => body where x is known from a sibling block
 }
 
 // VerifScope: all identifier occurrences that denote the same binding share one Var;
@@ -367,6 +411,9 @@ func VerifScope() {
 	}
 	if ski == 13 {
 		vAssume(names[2] == names[1])
+	}
+	if ski == 26 {
+		vAssume(names[3] != names[4]) // a default that names a LATER parameter always throws (TDZ): not modelled
 	}
 	src := vnRenderJS(nil, sk.prog, names)
 	ref := &vnResolver{names: names, binding: make([]int, sk.sites)}
@@ -411,19 +458,53 @@ func VerifScope() {
 	// identifier sites of the printed program, in source order
 	l := NewLexer(parse.NewInputBytes(append(make([]byte, 0, len(out)+1), out...)))
 	var printed [][]byte
+	var keyed []bool // the printed identifier is the value of an explicit `key: value` property
+	lastIdent, pendingKey := false, false
 	for i := 0; i < 10*len(out)+4; i++ {
 		tt, data := l.Next()
 		if tt == ErrorToken {
 			break
 		}
-		if tt == IdentifierToken || tt >= AsToken && tt <= YieldToken {
-			printed = append(printed, append([]byte(nil), data...))
+		if tt == WhitespaceToken || tt == LineTerminatorToken {
+			continue
 		}
+		if tt == ColonToken && lastIdent {
+			// `name:` is a property key (skeletons have no labels): not an identifier site
+			printed = printed[:len(printed)-1]
+			keyed = keyed[:len(keyed)-1]
+			pendingKey = true
+			lastIdent = false
+			continue
+		}
+		lastIdent = false
+		if tt == IdentifierToken || tt >= AsToken && tt <= YieldToken {
+			if string(data) == "K" || string(data) == "m" || string(data) == "static" || string(data) == "z" || string(data) == "k" {
+				continue // fixed names of the class skeletons
+			}
+			printed = append(printed, append([]byte(nil), data...))
+			keyed = append(keyed, pendingKey)
+			lastIdent = true
+		}
+		pendingKey = false
 	}
 	vAssert(len(printed) == sk.sites, "identifier-site-count")
 	if len(printed) != sk.sites {
 		return
 	}
+	// a shorthand property whose variable was renamed must be printed as `key: newname`
+	// (the property key is not an identifier reference and keeps its spelling)
+	si := 0
+	var walkS func(list []vnS)
+	walkS = func(list []vnS) {
+		for _, st := range list {
+			if st.k == "suse" {
+				vAssert(keyed[st.site] == (len(printed[st.site]) == 2), "shorthand-property-key-follows-renaming")
+				si++
+			}
+			walkS(st.body)
+		}
+	}
+	walkS(sk.prog)
 	for i := 0; i < sk.sites; i++ {
 		declared := len(printed[i]) == 2
 		vAssert(declared == (ref.binding[i] >= 0), "declared-vs-free")
